@@ -368,7 +368,7 @@ impl<'a, F: IVP> SolOut for DefaultSolOut<'a, F> {
             
             let mut i = self.next_idx;
             
-            if (xold - *x).abs() <= self.tol {
+            if xold == *x {
                 // Initial callback (xold == x): output at matching t_eval points
                 while i < t_eval.len() && (t_eval[i] - *x).abs() <= self.tol {
                     self.t.push(t_eval[i]);
@@ -413,7 +413,7 @@ impl<'a, F: IVP> SolOut for DefaultSolOut<'a, F> {
             if let Some(h0) = self.first_step {
                 // First-step enforcement: skip intermediate outputs until we reach/pass
                 // the target, then interpolate to the exact point.
-                if !self.first_output_done && (xold - *x).abs() > self.tol {
+                if !self.first_output_done && xold != *x {
                     let direction = (*x - xold).signum();
                     // For backward integration (direction < 0), target is x0 - h0
                     let target = self.x0 + direction * h0;
@@ -442,7 +442,7 @@ impl<'a, F: IVP> SolOut for DefaultSolOut<'a, F> {
             }
             
             // Normal output: record endpoint (avoid duplicates)
-            if self.t.is_empty() || (self.t.last().unwrap() - *x).abs() > self.tol {
+            if self.t.is_empty() || *self.t.last().unwrap() != *x {
                 self.t.push(*x);
                 self.y.push(y.to_vec());
             }
